@@ -115,9 +115,13 @@ func NewSubscriberWithConcurrencyMode[T any](destination Observer[T], mode Concu
 // newSubscriberImpl creates a new subscriber implementation with the specified
 // synchronization behavior and destination observer.
 func newSubscriberImpl[T any](mode ConcurrencyMode, mu xsync.Mutex, backpressure Backpressure, destination Observer[T]) Subscriber[T] {
-	// Protect against multiple encapsulation layers.
+	// Protect against multiple encapsulation layers, but never hand back a subscriber
+	// that gives a weaker concurrency guarantee than the one requested: an unsafe
+	// subscriber reused by a safe observable would not serialize its producers.
 	if subscriber, ok := destination.(Subscriber[T]); ok {
-		return subscriber
+		if impl, isImpl := subscriber.(*subscriberImpl[T]); mode == ConcurrencyModeUnsafe || (isImpl && satisfiesConcurrencyMode(impl.mode, mode)) {
+			return subscriber
+		}
 	}
 
 	subscriber := &subscriberImpl[T]{
@@ -136,6 +140,19 @@ func newSubscriberImpl[T any](mode ConcurrencyMode, mu xsync.Mutex, backpressure
 	}
 
 	return subscriber
+}
+
+// satisfiesConcurrencyMode reports whether a subscriber created with the `existing`
+// mode offers at least the guarantees of the `requested` mode.
+func satisfiesConcurrencyMode(existing, requested ConcurrencyMode) bool {
+	switch existing {
+	case ConcurrencyModeSafe:
+		return true
+	case ConcurrencyModeEventuallySafe:
+		return requested != ConcurrencyModeSafe
+	default:
+		return requested == ConcurrencyModeUnsafe
+	}
 }
 
 type subscriberImpl[T any] struct {
